@@ -241,6 +241,7 @@ func (a *Assembler) FlushWithOptions(opt FlushOptions) (flushed, closed int) {
 	flushes := 0
 	for _, conn := range conns {
 		flushed := false
+		verifYield("flush:before-conn-lock")
 		conn.mu.Lock()
 		if conn.closed {
 			// Already closed connection, nothing to do here.
@@ -280,6 +281,7 @@ func (a *Assembler) FlushAll() (closed int) {
 	conns := a.connPool.connections()
 	closed = len(conns)
 	for _, conn := range conns {
+		verifYield("flushall:before-conn-lock")
 		conn.mu.Lock()
 		for !conn.closed {
 			a.skipFlush(conn)
@@ -499,10 +501,12 @@ func (p *StreamPool) getConnection(k key, end bool, ts time.Time) *connection {
 	p.mu.RLock()
 	conn := p.conns[k]
 	p.mu.RUnlock()
+	verifYield("getConnection:looked-up")
 	if end || conn != nil {
 		return conn
 	}
 	s := p.factory.New(k[0], k[1])
+	verifYield("getConnection:created-stream")
 	p.mu.Lock()
 	conn = p.newConnection(k, s, ts)
 	if conn2 := p.conns[k]; conn2 != nil {
@@ -558,6 +562,7 @@ func (a *Assembler) AssembleWithTimestamp(netFlow gopacket.Flow, t *layers.TCP, 
 			}
 			return
 		}
+		verifYield("assemble:before-conn-lock")
 		conn.mu.Lock()
 		if !conn.closed {
 			break
